@@ -44,6 +44,9 @@ func VerifH_C02_L1_naming() {
 	n1 := jobconfig.GenerateName(name, t1)
 	n2 := jobconfig.GenerateName(name, t2)
 	vz.Assert((n1 == n2) == (t1.Unix() == t2.Unix()), "C02/L1/name-injective-in-seconds")
+	// ... and of nothing else: another controller process (after a restart) computes the same name
+	nOther := vz.OtherProcess("name", func() string { return jobconfig.GenerateName(name, t1) })
+	vz.Assert(nOther == n1, "C02/L1/name-is-the-same-in-every-process")
 	if t1.Unix() == t2.Unix() && t1.Nanosecond() != t2.Nanosecond() {
 		vz.Cover("same-second-different-instant")
 	}
